@@ -53,7 +53,7 @@ ActionFails(e) ==
     [] e.name = "Raise" -> {"NoRaise"}
     [] OTHER -> {"NoSuchAction"}
 
-InvNames == {"RecordsAligned", "Partition", "NonEmpty", "CountersSane", "BlockSound", "Enclosed"}
+InvNames == {"RecordsAligned", "Partition", "NonEmpty", "CountersSane", "BlockSound", "Enclosed", "VolumeRecords"}
 InvHolds(n) ==
   CASE n = "RecordsAligned" -> RecordsAligned
     [] n = "Partition" -> Partition
@@ -61,6 +61,7 @@ InvHolds(n) ==
     [] n = "CountersSane" -> CountersSane
     [] n = "BlockSound" -> BlockSound
     [] n = "Enclosed" -> Log[l].obs.enclosed       \* every untrimmed construction point satisfies contains()
+    [] n = "VolumeRecords" -> Log[l].obs.volsAligned  \* log_v_all[k] is the volume of bounds[k]
 
 TNext == /\ l < Len(Log) /\ l' = l + 1 /\ Bind(l + 1)
          /\ LET f == ActionFails(Log[l + 1].event) \cup {n \in InvNames : ~(InvHolds(n))'}
